@@ -179,8 +179,13 @@ type SPView struct {
 	Reward      uint64
 	Killed      bool
 	Delegate    string
+	MinStake    uint64
 	Pools       map[string]PoolView
 }
+
+// Rewardless reports whether StakePool.DistributeRewards credits nothing to
+// this pool (killed, or staked below the pool's minimum).
+func (s *SPView) Rewardless() bool { return s.Killed || s.Stake() < s.MinStake }
 
 func (s *SPView) Stake() uint64 {
 	var t uint64
@@ -463,6 +468,7 @@ func decodeSP(raw []byte) SPView {
 	sp.Reward = gu64(inner["Reward"])
 	sp.Killed = gbool(inner["HasBeenKilled"])
 	sp.Delegate = gstr(gmap(inner["Settings"])["DelegateWallet"])
+	sp.MinStake = gu64(gmap(inner["Settings"])["MinStake"])
 	for id, p := range gmap(inner["Pools"]) {
 		pm := gmap(p)
 		sp.Pools[id] = PoolView{Balance: gu64(pm["Balance"]), Reward: gu64(pm["Reward"]), Status: gi64(pm["Status"])}
